@@ -219,6 +219,16 @@ def plan_c15(pid, rng, quick):
         plan.append({"id": "mem-dict/%s/%s/%d" % (signal, d, i), "signal": signal, "opts": o,
                      "batches": ramp_history(rng, signal, rng.choice(["overflow", "reset", "cross"]), cap, rng.choice([4, 8])),
                      "props": [], "mode": 2, "nowire": True, "nodecode": True})
+    # an encode error INSIDE Produce: the caller-supplied allocator refuses (panics, like the repository's LimitedAllocator)
+    # while the k-th record of a batch is written to its IPC stream; the batch is refused, the stream goes on, and Close
+    # must still give everything back
+    for signal in ("traces", "logs", "metrics"):
+        for rep in range(4 if quick else 40):
+            bs = [otap.rand_batch(rng, rich=2) for _ in range(rng.choice([1, 3]))]
+            bs.append(dict(otap.rand_batch(rng, rich=2), allocfail=1 + rep % 4))
+            bs += [otap.rand_batch(rng, rich=2), otap.rand_batch(rng, rich=1)]
+            plan.append({"id": "mem-allocfail/%s/%d" % (signal, rep), "signal": signal, "opts": otap.opts_random(rng) if rep % 2 else {},
+                         "batches": bs, "props": [], "mode": 2, "nowire": True, "nodecode": True})
     return plan
 
 def plan_wire(pid, rng, quick):
@@ -249,10 +259,10 @@ def plan_wire(pid, rng, quick):
     for signal in ("traces", "logs", "metrics"):
         for rep in range(2 if quick else 8):
             bs = [otap.rand_batch(rng, rich=2) for _ in range(rng.choice([2, 3]))]
-            bs.append(dict(otap.rand_batch(rng, rich=2), allocfail=True))
+            bs.append(dict(otap.rand_batch(rng, rich=2), allocfail=1 + rep % 3))
             bs += [otap.rand_batch(rng, rich=2), otap.rand_batch(rng, rich=1)]
             if rep % 2:
-                bs.insert(len(bs) - 1, dict(otap.rand_batch(rng, rich=2), allocfail=True))
+                bs.insert(len(bs) - 1, dict(otap.rand_batch(rng, rich=2), allocfail=rng.choice([1, 2, 4])))
             plan.append({"id": "wire-allocfail/%s/%d" % (signal, rep), "signal": signal, "opts": otap.opts_random(rng) if rep % 2 else {},
                          "batches": bs, "props": [], "mode": 2, "nodecode": True, "nowire": True})
     # sibling records of one shape: every attribute map of a batch has the same columns, every metric kind and every
